@@ -681,7 +681,9 @@ class IPPO(MultiAgentRLAlgorithm):
                     batch_values,
                 ) = get_experiences_samples(minibatch_idxs, *experiences)
 
-                batch_actions = batch_actions.squeeze()
+                batch_actions = batch_actions.reshape(
+                    len(minibatch_idxs), *action_space.shape
+                )
                 batch_returns = batch_returns.squeeze()
                 batch_log_probs = batch_log_probs.squeeze()
                 batch_advantages = batch_advantages.squeeze()
